@@ -86,6 +86,12 @@ TUnit == /\ IsEvent("Unit") /\ E.ok
 TCancel    == IsEvent("Cancel") /\ Cancel /\ UNCHANGED <<rcount, ucount>>
 TWriteCall == IsEvent("WriteCall") /\ rcount = Len(results) /\ WriteCall(E.n) /\ UNCHANGED <<rcount, ucount>>
 TWriteDone == IsEvent("WriteDone") /\ pc = "idle" /\ E.res = "ok" /\ wleft = 0 /\ UNCHANGED <<vars, rcount, ucount>>
+\* the transport refused the frame (LfsConn.WriteFail; on a datagram transport nothing of it was accepted): the connection is finished
+\* and no unit may be observed for it - the next event is a Reset
+TWriteErr == /\ IsEvent("WriteDone") /\ E.res = "err" /\ pc = "write" /\ (Atomic => wleft = wlen)
+             /\ pc' = "dead"
+             /\ UNCHANGED <<cfg, sent, wsq, packed, net, eof, abuf, rbuf, roff, pending, pongleft, wcur, wleft, wlen, nwrites, wafter,
+                            out, units, held, blocked, nblock, results, nerr, npend, ncancel, ntimeout, hist, rcount, ucount>>
 
 \* a frame the harness decided not to send (the stand-alone codec could not classify it)
 TSkipped == IsEvent("Skipped") /\ UNCHANGED <<vars, rcount, ucount>>
@@ -102,7 +108,7 @@ TSilent == /\ \/ (pc = "loop" /\ TryDecode)
            /\ UNCHANGED <<l, rcount, ucount>>
 
 TNext == \/ TReset \/ TPeerSend \/ TPeerTrunc \/ TPeerClose \/ TReadCall \/ TTRead \/ TTWrite \/ TResult
-         \/ TPeerDgram \/ TPeerWsMsg \/ TUnit \/ TCancel \/ TWriteCall \/ TWriteDone \/ TSkipped \/ TSilent
+         \/ TPeerDgram \/ TPeerWsMsg \/ TUnit \/ TCancel \/ TWriteCall \/ TWriteDone \/ TWriteErr \/ TSkipped \/ TSilent
 TSpec == TInit /\ [][TNext]_tvars
 
 \* The invariants of LfsConn evaluated along the recorded execution.  Every accepted prefix is a behaviour of the specification
